@@ -6,7 +6,11 @@ import datetime
 import decimal
 import math
 import re
+import sys
 from fractions import Fraction
+
+if hasattr(sys, 'set_int_max_str_digits'):
+    sys.set_int_max_str_digits(0)
 
 BOUND = 2 ** 30
 MAXDEN = 1024
